@@ -49,7 +49,7 @@ func (a *adversary) sign(h *types.SignedHeader) {
 	h.Signature = sig
 }
 
-const numAdvHeaderKinds = 8
+const numAdvHeaderKinds = 10
 
 // header builds an adversarial header of the given kind aimed at block index bi.
 func (a *adversary) header(kind int64, bi int) (*types.SignedHeader, string) {
@@ -102,12 +102,25 @@ func (a *adversary) header(kind int64, bi int) (*types.SignedHeader, string) {
 		h.DataHash = (&types.Data{Txs: types.Txs{[]byte(fmt.Sprintf("evil=%d", bi))}}).DACommitment()
 		h.Signer = types.Signer{PubKey: a.pub, Address: paddr}
 		a.sign(h)
+	case 8:
+		name = "genuine-fields-resigned-with-other-key-under-proposer-address"
+		// nothing the header hash covers is changed: only who signed it
+		h.Signer = types.Signer{PubKey: a.pub, Address: paddr}
+		a.sign(h)
+	case 9:
+		name = "genuine-fields-garbage-signature"
+		h.Signature = bytes.Repeat([]byte{0x24}, 64)
+	}
+	if bytes.Equal(h.Hash(), g.Header.Hash()) {
+		// same hash as the genuine header: the mark for this hash is legitimate once the proposer's own blob was
+		// seen; that is judged by the "marked without the proposer's blob" oracle, not by hash
+		return h, name
 	}
 	a.hdrHashes[string(h.Hash())] = name
 	return h, name
 }
 
-const numAdvDataKinds = 4
+const numAdvDataKinds = 5
 
 func (a *adversary) signedData(kind int64, bi int) ([]byte, string) {
 	g := a.blocks[bi]
@@ -127,11 +140,16 @@ func (a *adversary) signedData(kind int64, bi int) ([]byte, string) {
 	case 3:
 		name = "forged-data-matching-a-forged-header"
 		sd.Data = types.Data{Metadata: &types.Metadata{ChainID: a.w.Genesis.ChainID, Height: g.H, Time: g.Header.BaseHeader.Time}, Txs: types.Txs{[]byte(fmt.Sprintf("evil=%d", bi))}}
+	case 4:
+		name = "genuine-data-resigned-with-other-key-under-proposer-address"
+		sd.Data = *cloneData(g.Data)
 	}
 	sd.Signer = types.Signer{PubKey: a.pub, Address: paddr}
 	bz, _ := sd.Data.MarshalBinary()
 	sd.Signature, _ = a.key.Sign(bz)
-	a.dataHashes[string(sd.Data.DACommitment())] = name
+	if kind%numAdvDataKinds != 4 || len(g.Data.Txs) == 0 {
+		a.dataHashes[string(sd.Data.DACommitment())] = name
+	}
 	blob, _ := sd.MarshalBinary()
 	return blob, name
 }
@@ -207,6 +225,37 @@ func c03Body(t *testing.T, s *sim.Scn, o *sim.Outcome) {
 			if f.M.HeaderCache().IsDAIncluded(fmt.Sprintf("%X", []byte(hs))) || f.M.HeaderCache().IsDAIncluded(types.Hash([]byte(hs)).String()) {
 				o.Fail("C03/forged-header-marked-da-included", "C03/forged-header-marked-da-included/"+name, step, fmt.Sprintf("%s: adversarial header (%s) is marked as DA-included", what, name), "only proposer-signed material is marked")
 				return false
+			}
+		}
+		// a genuine block may only be marked / reported DA-included once the proposer's own blobs are on the DA layer
+		for bi, b := range blocks {
+			hashStr := b.Header.Hash().String()
+			if f.M.HeaderCache().IsDAIncluded(hashStr) && !fw.planted[fmt.Sprintf("%d/0", bi)] {
+				o.Fail("C03/marked-da-included-without-proposers-blob", "C03/marked-da-included-without-proposers-blob/header/"+lastAdvName, step,
+					fmt.Sprintf("%s: header %d is marked DA-included although the proposer's header blob is not on the DA layer (only third-party material naming it is)", what, b.H), "only the proposer's own blob makes a header DA-included")
+				return false
+			}
+			if !b.Empty && f.M.DataCache().IsDAIncluded(b.Data.DACommitment().String()) && !fw.planted[fmt.Sprintf("%d/1", bi)] {
+				shared := false
+				for bj, o2 := range blocks {
+					if bj != bi && bytes.Equal(o2.Header.DataHash, b.Header.DataHash) && fw.planted[fmt.Sprintf("%d/1", bj)] {
+						shared = true // known finding of C07 (marks keyed by commitment): not this property's subject
+					}
+				}
+				if !shared {
+					o.Fail("C03/marked-da-included-without-proposers-blob", "C03/marked-da-included-without-proposers-blob/data/"+lastAdvName, step,
+						fmt.Sprintf("%s: data of block %d is marked DA-included although the proposer's signed data is not on the DA layer", what, b.H), "only the proposer's own blob makes data DA-included")
+					return false
+				}
+			}
+		}
+		if dai := f.M.GetDAIncludedHeight(); dai > 0 {
+			for bi, b := range blocks {
+				if b.H <= dai && !fw.planted[fmt.Sprintf("%d/0", bi)] {
+					o.Fail("C03/finalized-without-proposers-blob", "C03/finalized-without-proposers-blob/"+lastAdvName, step,
+						fmt.Sprintf("%s: DA-included height is %d although the proposer's header blob of block %d is not on the DA layer", what, dai, b.H), "nothing is finalized on third-party material")
+					return false
+				}
 			}
 		}
 		for ds, name := range adv.dataHashes {
@@ -339,6 +388,12 @@ func c03Body(t *testing.T, s *sim.Scn, o *sim.Outcome) {
 			for k, v := range sub.Counters {
 				o.Counters[k] += v
 			}
+		case "include":
+			if f.Alive && f.Halted == nil {
+				if !guarded(i, "inclusion run", func() bool { _ = f.Include(); return true }) {
+					return
+				}
+			}
 		case "restart":
 			_ = f.StopClean()
 			if err := f.StartNode(); err != nil {
@@ -443,8 +498,10 @@ func c03Gen(r *rand.Rand, tier string) *sim.Scn {
 			s.Ops = append(s.Ops, sim.Op{K: "retrieve"})
 		case x < 68:
 			s.Ops = append(s.Ops, sim.Op{K: "p2p", A: r.Int64N(4), B: r.Int64N(4)})
-		case x < 97:
+		case x < 92:
 			s.Ops = append(s.Ops, sim.Op{K: "deliver", A: r.Int64N(2), B: r.Int64N(64)})
+		case x < 97:
+			s.Ops = append(s.Ops, sim.Op{K: "include"})
 		default:
 			s.Ops = append(s.Ops, sim.Op{K: "restart"})
 		}
